@@ -88,4 +88,10 @@ Definition validate (evs : list (event * obs)) : nat * nat :=
       | None => (0, length (done st))
       end
   end.
+(* traces of builds that abort on a blocking error: the events up to the blocker reply must be a run of the model *)
+Definition validate_prefix (evs : list (event * obs)) : nat * nat :=
+  match replay 0 ini evs with
+  | inl r => r
+  | inr st => (0, length (done st))
+  end.
 End Replay.
